@@ -398,6 +398,18 @@ def eval_codes(ctx, records_coq, cases, shard_size=150, name="c07"):
 # -------------------------------------------------------------------------------------------------
 # ground truth: CPython `eval` with an independent reference namespace, and a strict reference evaluator
 
+def _whitelisted_class(dotted):
+    import importlib
+    mod = importlib.import_module("flow.record.fieldtypes")
+    obj = mod
+    try:
+        for part in dotted.split("."):
+            obj = getattr(obj, part)
+    except AttributeError:
+        return None
+    return obj
+
+
 class Undefined(Exception):
     """a sub-expression is not defined on this record / the construct is outside the documented language"""
 
@@ -669,11 +681,27 @@ def reference_namespace(r):
         return str(type(x))
 
     import flow.record.fieldtypes as ft
-    ns = dict(r=rec, Type=RefType(rec), lower=ref_lower, upper=ref_upper, name=ref_name, names=ref_names,
+
+    def ref_fields(t):
+        """documented: the fields of the record that have the given type, named by a string, a bare type name
+        (string, varint ...) or a dotted one (net.ipaddress)"""
+        from flow.record.whitelist import WHITELIST
+        if isinstance(t, str):
+            tn = t
+        else:
+            hits = [w for w in WHITELIST if _whitelisted_class(w) is t]
+            if not hits:
+                raise TypeError("not a field type")
+            tn = hits[0]
+            # aliases (net.IPAddress is net.ipaddress ...): any of the names of that class
+            return [f for f in rec._desc.fields.values() if f.typename in hits]
+        return [f for f in rec._desc.fields.values() if f.typename == tn]
+
+    ns = dict(r=rec, Type=RefType(rec), fields=ref_fields, lower=ref_lower, upper=ref_upper, name=ref_name, names=ref_names,
               has_field=ref_has_field, field_equals=ref_field_equals, field_contains=ref_field_contains,
               field_regex=ref_field_regex, get_type=ref_get_type, net=ft.net,
               string=ft.string, varint=ft.varint, wstring=ft.wstring, uint16=ft.uint16, uint32=ft.uint32,
-              boolean=ft.boolean)
+              boolean=ft.boolean, path=ft.path, uri=ft.uri)
     ns["__callables__"] = tuple(v for v in ns.values() if callable(v)) + (
         ft.net.ipaddress, ft.net.ipnetwork, ft.net.IPAddress, ft.net.IPNetwork)
     return ns
@@ -1066,6 +1094,14 @@ class Gen:
         c = r.random()
         flds = "[%s]" % ", ".join(repr(r.choice(self.strs + self.ints + ["zz", "s"])) for _ in range(r.choice([1, 2, 3])))
         strs = "[%s]" % ", ".join(self.value(d - 1, "str") for _ in range(r.choice([1, 2])))
+        if r.random() < 0.25:
+            flds = "['u', %s]" % flds[1:-1]                     # an unset field first
+        if r.random() < 0.2:
+            strs = "[None, %s]" % strs[1:-1] if r.random() < 0.5 else "[%s, None]" % strs[1:-1]
+        if c < 0.06:
+            return r.choice(["(%s in names(r))" % repr(r.choice(["test/c07", "test/c07n", "UnknownRecord", "x"])),
+                             "(name(r) == %s)" % repr(r.choice(["test/c07", "test/c07n", "UnknownRecord"])),
+                             "any(nm == name(r) for nm in names(r))"])
         if c < 0.2:
             return "has_field(r, %s)" % repr(r.choice(self.strs + ["zz", "n", "_generated"]))
         if c < 0.6:
@@ -1073,8 +1109,8 @@ class Gen:
             return "field_equals(r, %s, %s%s)" % (flds, strs, extra)
         if self.wide and c < 0.68:
             return "field_regex(r, %s, %s)" % (flds, repr(r.choice(["a.c", "^a", "b$", "[A-Z]"])))
-        if self.wide and c < 0.74:
-            return "field_contains(r, %s, %s, word_boundary=True)" % (flds, strs)
+        if c < 0.74 and (self.wide or r.random() < 0.3):
+            return "field_contains(r, %s, %s, word_boundary=True%s)" % (flds, strs, r.choice(["", ", nocase=False"]))
         extra = r.choice(["", "", ", nocase=False", ", True, False", ", word_boundary=False"])
         sflds = "[%s]" % ", ".join(repr(r.choice(self.strs + ["zz"])) for _ in range(r.choice([1, 2])))
         return "field_contains(r, %s, %s%s)" % (sflds if r.random() < 0.85 else flds, strs, extra)
@@ -1269,6 +1305,25 @@ def membership_exprs(rnd, r, count):
     return out
 
 
+# helper functions with None among the wanted strings, unset fields first, word_boundary on/off, nocase on/off; fields(...)
+HELPER_NONE_TEMPLATES = [
+    "field_contains(r, ['u', 's'], [None, 'ab'], word_boundary=True)", "field_contains(r, ['u'], [None], word_boundary=True)",
+    "field_contains(r, ['u', 's'], [None, 'zz'], nocase=False, word_boundary=True)", "field_contains(r, ['s', 'u'], ['abc', None], word_boundary=True)",
+    "field_contains(r, ['u', 's'], ['abc'], word_boundary=True)", "field_contains(r, ['u', 's'], ['ab'], word_boundary=True)",
+    "field_contains(r, ['u'], ['abc'], word_boundary=True)", "field_contains(r, ['s', 't'], ['ABC'], word_boundary=True)",
+    "field_contains(r, ['s', 't'], ['ABC'], nocase=False, word_boundary=True)", "field_contains(r, ['n'], ['1'], word_boundary=True)",
+    "field_equals(r, ['u'], [None])", "field_equals(r, ['u', 's'], [None, 'ABC'], nocase=False)", "field_equals(r, ['s', 'u'], ['zz', None])",
+    "field_equals(r, ['u'], ['abc', None], nocase=False)", "field_equals(r, ['s'], [None])",
+    "any(f.name == 's' for f in fields(string))", "any(f.name == 'n' for f in fields('varint'))", "all(f.name != 's' for f in fields(string))",
+    "any(f.name == 'a' for f in fields('varint[]'))", "any(f.name == 'b' for f in fields(boolean))", "any(f.name == 's' for f in fields(varint))",
+    "name(r) == 'test/c07'", "'test/c07' in names(r)", "'UnknownRecord' in names(r)", "any(n == name(r) for n in names(r))", "'test_c07' in get_type(r)",
+]
+WIDE_FIELDS_TEMPLATES = [
+    "any(f.name == 'ip' for f in fields(net.ipaddress))", "any(f.name == 'netw' for f in fields(net.ipnetwork))",
+    "any(f.name == 'ip' for f in fields('net.ipaddress'))", "all(f.name != 'ip' for f in fields(net.ipaddress))",
+    "any(f.name == 'p' for f in fields(path))", "any(f.name == 'u' for f in fields(uri))",
+    "'test/c07wide' in names(r)", "name(r) == 'test/c07wide'",
+]
 MULTI_TEMPLATES = [
     "10 < Type.varint < 100", "1000 < Type.varint < 10000", "10 < Type.varint < 60 < Type.varint", "1 < Type.varint < 10 < Type.varint < 100",
     "'a' <= Type.string <= 'z'", "'n' < Type.string < 'zzz'", "'a' <= Type.string <= 'c'", "Type.varint > 1000 > Type.varint",
@@ -1313,6 +1368,13 @@ GROUPED_EXPRS = [
     "name(r.sub) == 'a/x'", "'a/x' in names(r.sub)", "has_field(r.sub, 's')", "has_field(r.sub, 'n')", "field_equals(r.sub, ['s'], ['INNER'])",
     "field_contains(r.sub, ['s'], ['nn'])", "field_regex(r.sub, ['s'], '^in')", "'a/x' in str(r.sub)", "'a_x' in get_type(r.sub) or 'Record' in get_type(r.sub)",
     "any(name(x) == 'a/x' for x in r.subs)", "all('a/x' in names(x) for x in r.subs)",
+    "'c/w' in names(r)", "name(r) == 'c/w'", "names(r.sub) == names(r.sub)", "any(n == 'a/x' for n in names(r.sub))",
+    "'UnknownRecord' in names(r)", "'UnknownRecord' in names(r.sub)", "name(r.sub) != 'UnknownRecord'", "name(r.s) == 'UnknownRecord'",
+    "'UnknownRecord' in names(r.s)", "'a_x' in get_type(r) or 'c_w' in get_type(r) or 'Grouped' in get_type(r)",
+    # fields(...): interpreted engine only
+    "any(f.name == 's' for f in fields('string'))", "any(f.name == 's' for f in fields(string))", "all(f.name != 's' for f in fields(string))",
+    "any(f.name == 'k' for f in fields(varint))", "any(f.name == 'sub' for f in fields('record'))", "any(f.name == 'subs' for f in fields('record[]'))",
+    "any(f.name == 's' for f in fields(varint))",
 ]
 
 
@@ -1346,12 +1408,14 @@ def library_namespace(rec):
 
 
 def grouped_check(ctx, chk):
+    """ground truth: the INDEPENDENT reference helpers (documented meaning: names(r) = the member names of a group,
+    {r's own name} for any other record ...) -- a defect of a helper itself shows up, not only an engine that hands the
+    helper something else than the record"""
     n = 0
     for r in grouped_records():
-        ns = library_namespace(r["rec"])
         for text in GROUPED_EXPRS:
             tree = ast.parse(text, mode="eval")
-            outs = run_pair(text, tree, r, chk.sel_cache, ns=ns)
+            outs = run_pair(text, tree, r, chk.sel_cache)
             if outs is None:
                 continue
             n += 1
@@ -1478,7 +1542,10 @@ class Checker:
             return True
         ok = True
         classes = syntactic_classes(tree)
+        uses_fields = any(isinstance(n, ast.Name) and n.id == "fields" for n in ast.walk(tree))
         for engine, o in (("interpreted", oi), ("compiled", oc)):
+            if engine == "compiled" and uses_fields:
+                continue        # `fields` is a name of the interpreted engine only (not defined in the compiled namespace)
             got = truth_of(o)
             self.stats["agree_checked"] += 1
             if got == want:
@@ -1567,6 +1634,10 @@ def differential(ctx, kf, budget_pairs, maxdepth, rnd, with_coq, exhaustive=Fals
                 yield ("on", ri), t
         for t in MULTI_TEMPLATES:
             yield "multi", t
+        for t in HELPER_NONE_TEMPLATES:
+            yield "helpernone", t
+        for t in WIDE_FIELDS_TEMPLATES:
+            yield "widefields", t
         for _ in range(budget_pairs):
             depth = rnd.choice(range(1, maxdepth + 1))
             c = rnd.random()
@@ -1611,6 +1682,10 @@ def differential(ctx, kf, budget_pairs, maxdepth, rnd, with_coq, exhaustive=Fals
             picks = d5_idx[:3]
         elif kind == "multi":
             picks = d7_idx[:4]
+        elif kind == "helpernone":
+            picks = d1_idx[:4]
+        elif kind == "widefields":
+            picks = d6_idx[:2]
         elif isinstance(kind, tuple):
             picks = [kind[1]]
         elif kind == "nested":
@@ -1698,6 +1773,64 @@ print("@@" + json.dumps([oc, oi, og]))
 """
 DEEP_RECORD = "test/c07deep(s='10.1.2.3', n=80)"
 
+# the deprecated net.ipv4 types: every constructor form (one / two arguments), membership with str / int / Address / None /
+# an UNSET Address field.  The reference is independent of flow.record.fieldtypes.net.ipv4: the standard library's ipaddress.
+IPV4_TEMPLATES = [
+    "r.s in net.ipv4.Subnet('10.0.0.0', 8)", "r.s in net.ipv4.Subnet('11.0.0.0', 8)", "r.s in net.ipv4.Subnet('10.1.2.0', 24)",
+    "r.s in net.ipv4.Subnet('10.1.3.0', 24)", "r.s in net.ipv4.Subnet('10.1.2.3')", "r.s in net.ipv4.Subnet('10.1.2.4')",
+    "r.ip4 in net.ipv4.Subnet('10.0.0.0', 8)", "r.ip4 in net.ipv4.Subnet('10.0.0.0/8')", "r.ip4 in net.ipv4.Subnet('192.168.0.0/16')",
+    "r.ip4 not in net.ipv4.Subnet('192.168.0.0', 16)", "r.unset in net.ipv4.Subnet('10.0.0.0/8')", "r.unset in net.ipv4.Subnet('0.0.0.0/0')",
+    "r.unset not in net.ipv4.Subnet('10.0.0.0', 8)", "None in net.ipv4.Subnet('10.0.0.0/8')", "r.num in net.ipv4.Subnet('10.0.0.0/8')",
+    "167838211 in net.ipv4.Subnet('10.1.2.0', 24)", "167838211 in net.ipv4.Subnet('10.1.3.0/24')",
+    "net.ipv4.Address(r.s) in net.ipv4.Subnet('10.1.2.0', 24)", "net.ipv4.Address('10.9.9.9') in net.ipv4.Subnet('10.1.2.0/24')",
+    "r.ip4 == net.ipv4.Address('10.1.2.3')", "r.ip4 == net.ipv4.Address('10.1.2.4')", "r.ip4 != net.ipv4.Address(r.s)",
+    "any(a in net.ipv4.Subnet('10.0.0.0', 8) for a in [r.s, r.ip4])", "all(a in net.ipv4.Subnet('10.0.0.0', 8) for a in [r.s, r.unset])",
+]
+IPV4_SCRIPT = r"""
+import sys, json, datetime, ipaddress, types
+expr = sys.argv[1]
+from flow.record import RecordDescriptor
+from flow.record.selector import CompiledSelector, Selector
+D = RecordDescriptor("test/c07ipv4", [("string", "s"), ("net.ipv4.Address", "ip4"), ("net.ipv4.Address", "unset"), ("varint", "num")])
+r = D(s="10.1.2.3", ip4="10.1.2.3", unset=None, num=167838211, _generated=datetime.datetime(2021, 1, 1, tzinfo=datetime.timezone.utc))
+def out(f):
+    try:
+        return ["val", bool(f())]
+    except Exception as e:
+        return ["exc", type(e).__name__, str(e)[:100]]
+oc = out(lambda: CompiledSelector(expr).match(r))
+oi = out(lambda: Selector(expr).match(r))
+
+class RefAddress:
+    def __init__(self, a):
+        self.a = a.a if isinstance(a, RefAddress) else ipaddress.IPv4Address(a)
+    def __eq__(self, o):
+        return isinstance(o, RefAddress) and self.a == o.a
+    def __ne__(self, o):
+        return not self == o
+    __hash__ = None
+
+class RefSubnet:
+    def __init__(self, addr, netmask=None):
+        if not isinstance(addr, str):
+            raise TypeError("string expected")
+        self.n = ipaddress.IPv4Network(addr if netmask is None else "%s/%d" % (addr, netmask), strict=True)
+    def __contains__(self, x):
+        if x is None:
+            return False
+        if isinstance(x, RefAddress):
+            return x.a in self.n
+        if isinstance(x, (str, int)) and not isinstance(x, bool):
+            return ipaddress.IPv4Address(x) in self.n
+        return False
+
+ref_net = types.SimpleNamespace(ipv4=types.SimpleNamespace(Address=RefAddress, Subnet=RefSubnet))
+ref_r = types.SimpleNamespace(s="10.1.2.3", ip4=RefAddress("10.1.2.3"), unset=None, num=167838211)
+og = out(lambda: eval(expr, {"r": ref_r, "net": ref_net}))
+print("@@" + json.dumps([oc, oi, og]))
+"""
+IPV4_RECORD = "test/c07ipv4(s='10.1.2.3', ip4='10.1.2.3', unset=None, num=167838211)"
+
 
 def deep_paths_check(ctx):
     import json
@@ -1729,6 +1862,27 @@ def deep_paths_check(ctx):
                         engine, o[1] if o[0] == "val" else "%s(%s)" % (o[1], o[2]), e, DEEP_RECORD, og[1]),
                     dict(kind="deep", expr=e, engine=engine, got=o, expected=og))
     ctx.notes.append("deep whitelist paths: %d expressions x 2 engines, each in a fresh process, compiled engine first" % len(exprs))
+    if ctx.violations:
+        return n
+    script4 = ctx.work / "c07_ipv4.py"
+    script4.write_text(IPV4_SCRIPT)
+    procs = [(e, subprocess.Popen([core.PY, "-W", "ignore", str(script4), e], env=core.env_for_repo(), cwd=str(ctx.work),
+                                  stdout=subprocess.PIPE, stderr=subprocess.STDOUT, text=True)) for e in IPV4_TEMPLATES]
+    for e, pr in procs:
+        outp = pr.communicate(timeout=120)[0]
+        line = [ln for ln in outp.splitlines() if ln.startswith("@@")]
+        if pr.returncode != 0 or not line:
+            raise RuntimeError("fresh-process evaluation of %r failed: %s" % (e, outp[-400:]))
+        oc, oi, og = json.loads(line[0][2:])
+        for engine, o in (("compiled", oc), ("interpreted", oi)):
+            ctx.count_case(("ipv4", e, engine), nontrivial=True)
+            n += 1
+            if og[0] == "val" and o[:2] != og[:2] and not ctx.violations:
+                ctx.violation(
+                    "the %s engine gives %s for %s on %s, the meaning of the net.ipv4 types (computed with the standard library's ipaddress) gives %r" % (
+                        engine, o[1] if o[0] == "val" else "%s(%s)" % (o[1], o[2]), e, IPV4_RECORD, og[1]),
+                    dict(kind="ipv4", expr=e, engine=engine, got=o, expected=og))
+    ctx.notes.append("net.ipv4 constructor forms / membership: %d expressions x 2 engines against an ipaddress-based reference" % len(IPV4_TEMPLATES))
     return n
 
 
@@ -1848,7 +2002,7 @@ def replay(obj):
             for cur in grouped_records():
                 if cur["which"] != which:
                     continue
-                oi, oc, op, orf, os_ = run_pair(text, tree, cur, {}, ns=library_namespace(cur["rec"]))
+                oi, oc, op, orf, os_ = run_pair(text, tree, cur, {})
                 print("replay %s on %s: interpreted=%r compiled=%r python=%r" % (text, fmt_vals(cur), truth_of(oi), truth_of(oc), truth_of(op)))
                 o = oi if obj.get("engine") == "interpreted" else oc
                 rc = 1 if (op[0] == "val" and os_[0] == "val" and truth_of(o) != truth_of(op)) else 0
@@ -1887,6 +2041,20 @@ def replay(obj):
             return 0
         o = oi if obj["engine"] == "interpreted" else oc
         return 0 if truth_of(o) == truth_of(op) else 1
+    if kind in ("deep", "ipv4") and kind == "ipv4":
+        import subprocess
+        import tempfile
+        import json as _json
+        with tempfile.TemporaryDirectory(dir=str(core.WORK)) as td:
+            sp = core.Path(td) / "c07_ipv4.py"
+            sp.write_text(IPV4_SCRIPT)
+            outp = subprocess.run([core.PY, "-W", "ignore", str(sp), obj["expr"]], env=core.env_for_repo(), cwd=td,
+                                  capture_output=True, text=True).stdout
+        line = [ln for ln in outp.splitlines() if ln.startswith("@@")]
+        oc, oi, og = _json.loads(line[0][2:])
+        print("replay %s on %s: compiled=%r interpreted=%r reference=%r" % (obj["expr"], IPV4_RECORD, oc, oi, og))
+        o = oc if obj["engine"] == "compiled" else oi
+        return 0 if (og[0] != "val" or o[:2] == og[:2]) else 1
     if kind == "deep":
         import subprocess
         import tempfile
